@@ -63,7 +63,7 @@ def knownSensitive : List (String × String) :=
 /-- Sites whose syntactic idiom looks order-sensitive but whose effect is not, by a reviewed side
 argument (each with its reason; the classifier is idiom-based and cannot see these). -/
 def reviewedIndependent : List (String × String) :=
-  [("GenerateEnums", "e1.GetValues()"),             -- existence test with break: only booleans are set
+  [("resolveEnumConflicts", "e1.GetValues()"),      -- existence test with break: only booleans are set
    ("ParameterDefinition.IsJson", "p.Content"),     -- guarded by len(p.Content) == 1
    ("operationsWithTags", "ops"),                   -- collected names are only used as a set of deletions
    ("operationsWithTags", "paths.Map()"),
